@@ -169,13 +169,22 @@ AShort(m, k) ==
 \* ArFile(fileobj=f) itself fails with the caller's exception: no object exists, nothing changed
 AOpenFault == /\ "raise" \in Faults /\ ~opened /\ UNCHANGED rvars
 
+\* ---- results belong to the caller.  getnames() answers with the names of the members in archive order (v = one
+\* chunk of member ids), EVERY time it is asked; what a caller does to a list the API handed out earlier
+\* (getnames(), readlines(), readlines(h), list(member): sort / remove / append / clear in place) is no action of the
+\* archive at all -- ACallerEdits changes nothing, so every later call is judged as if the edit had not happened.
+ANames == /\ opened
+          /\ aret' = Res("n", <<[k \in 1..Len(mem) |-> k]>>, 0) /\ am' = 0
+          /\ UNCHANGED <<mem, opened, pos, aidx>>
+ACallerEdits == opened /\ UNCHANGED rvars
+
 ASeek(m, off, wh) == LET t == BSeekTarget(D(m), pos[m], off, wh)
                      IN /\ t \in 0..SeekMax
                         /\ ACall(m, Res("z", <<>>, 0), t)
                         /\ Edge("seek", m, <<off, wh>>)
 ATell(m)         == ACall(m, Res("t", <<>>, pos[m]), pos[m]) /\ Edge("tell", m, <<>>)
 
-RNext == \/ AOpen
+RNext == \/ AOpen \/ ANames \/ ACallerEdits
          \/ \E m \in 1..Len(mem) :
               \/ ARead(m) \/ AReadLine(m) \/ AReadLines(m) \/ ATell(m)
               \/ \E n \in RdSizes \cup {-1} : AReadN(m, n)
